@@ -7,10 +7,11 @@ intersection contract for clipping an unbounded range.  What C05 adds is the acc
 which go through _evaluate / _evaluate_range / _evaluate_non_iterative (they re-enter compiled
 formulas: bounded only).
 """
-from contracts.c01 import CONTRACTS as _C01_CONTRACTS
+from contracts.c01 import ASSUMED as _C01_ASSUMED, CONTRACTS as _C01_CONTRACTS
 from pyvc.spec import Contract
 
 CONTRACTS = list(_C01_CONTRACTS)
+ASSUMED = list(_C01_ASSUMED)
 LEMMAS = []
 
 
